@@ -12,6 +12,7 @@ structure Ver where
   frm : Int
   deact : Bool
   assertion : List (String × Key)
+  base : Option String := none
 
 structure St where
   hist : List (String × List Ver) := []
@@ -97,7 +98,7 @@ def resolveAt (st : St) (at_ : Option Time) (d : String) : Option DidDoc :=
     let t := at_.getD st.asOf
     match (vs.filter (fun v => v.frm ≤ t)).getLast? with
     | none => none
-    | some v => if v.deact then none else some { assertion := v.assertion }
+    | some v => if v.deact then none else some { assertion := v.assertion, base := v.base }
 
 def envOf (st : St) (op : Json) : Env :=
   { now := jInt op "now"
@@ -136,7 +137,7 @@ def step (st : St) (j : Json) : St × List String :=
     let hist := match j.getObjVal? "hist" with
       | .ok (.obj kvs) => kvs.toList.map (fun (d, vs) =>
           (d, (match vs with | Json.arr a => a.toList | _ => []).map (fun v =>
-            ({ frm := jInt v "from", deact := jBool v "deact",
+            ({ frm := jInt v "from", deact := jBool v "deact", base := (optStr v "base").filter (· != ""),
                assertion := (jArr v "assertion").map (fun p => match p with
                  | Json.arr #[Json.str a, Json.str b] => (a, b) | _ => ("", "")) } : Ver))))
       | _ => []
